@@ -238,6 +238,7 @@ def h_malformed(ctx):
     route = ctx.choose("route", ["JWKRegistry.import_key", "Class.import_key", "KeySet.import_key_set"])
     edit = ctx.deviate("edit", ["none", "delete-required", "retype", "corrupt", "crt-subset", "use-key_ops", "oth", "kty"])
     d = copy.deepcopy(base)
+    params = {}
     malformed = None
     if edit == "delete-required":
         m = ctx.choose("member", rjwk.REQUIRED[kty] + (["kty"] if route != "Class.import_key" else []))
@@ -329,6 +330,11 @@ def h_malformed(ctx):
         ops = ctx.choose("key_ops", [["sign"], ["verify"], ["sign", "verify"], ["encrypt"], ["decrypt"], ["wrapKey"], ["unwrapKey"], ["deriveKey"], ["deriveBits"],
                                      ["sign", "encrypt"], ["wrapKey", "verify"]])
         d["use"], d["key_ops"] = use, ops
+        # the two declarations may reach the key by different roads: as JWK members, or as the parameters of the import call
+        split = ctx.choose("declared_via", ["both-jwk-members", "use-member+key_ops-parameter", "key_ops-member+use-parameter", "both-parameters"])
+        if split != "both-jwk-members":
+            for m_ in (["key_ops"] if split.startswith("use-member") else ["use"] if split.startswith("key_ops-member") else ["use", "key_ops"]):
+                params[m_] = d.pop(m_)
         allowed = {"sig": {"sign", "verify"}, "enc": {"encrypt", "decrypt", "wrapKey", "unwrapKey", "deriveKey", "deriveBits"}}[use]
         if set(ops) <= allowed:
             malformed = None
@@ -352,12 +358,17 @@ def h_malformed(ctx):
     cls = {"oct": OctKey, "RSA": RSAKey, "EC": ECKey, "OKP": OKPKey}[kty]
 
     def run():
+        P = copy.deepcopy(params) or None
         if route == "JWKRegistry.import_key":
-            return JWKRegistry.import_key(copy.deepcopy(d))
-        if route == "Class.import_key":
-            return cls.import_key(copy.deepcopy(d))
-        from joserfc.jwk import KeySet
-        return KeySet.import_key_set({"keys": [copy.deepcopy(d)]}).keys[0]
+            k = JWKRegistry.import_key(copy.deepcopy(d), parameters=P)
+        elif route == "Class.import_key":
+            k = cls.import_key(copy.deepcopy(d), P)
+        else:
+            from joserfc.jwk import KeySet
+            k = KeySet.import_key_set({"keys": [copy.deepcopy(d)]}, P).keys[0]
+        if P:
+            k.as_dict()      # parameters are merged when the JWK view is built; "refused at import" is read as "never yields a usable key"
+        return k
     r = call(run)
     vs = []
     if malformed is not None and "inconsistent" in malformed:
@@ -385,7 +396,53 @@ def h_malformed(ctx):
     return Outcome(f"{edit}:{'accepted' if r.ok else 'refused:' + r.etype}", vs, nontrivial=(name, route, edit, repr(sorted(d.items(), key=str))[:300]))
 
 
+BAD_PARAMS = [("use contradicts key_ops", {"use": "sig", "key_ops": ["encrypt"]}), ("use contradicts key_ops", {"use": "enc", "key_ops": ["sign"]}),
+              ("kid is not a string", {"kid": 5}), ("use is not a string", {"use": ["sig"]}), ("key_ops is not a list", {"key_ops": "sign"}),
+              ("x5c is not a list of strings", {"x5c": [1]}), ("alg is not a string", {"alg": 7}), ("valid parameters (control)", {"use": "sig", "kid": "k1"})]
+
+
+def h_bad_parameters(ctx):
+    """A key made from its native encoding (or generated) together with invalid extra parameters: the JWK view is built lazily, so the
+    refusal may come late - but it comes every time, and no export ever shows the refused members."""
+    from joserfc.jwk import JWKRegistry, OctKey, RSAKey, ECKey, OKPKey
+    kind = ctx.choose("key", ["oct32", "rsa1024", "P-256", "Ed25519"])
+    how = ctx.choose("made_by", ["native-import", "generate"])
+    why, params = ctx.choose("parameters", BAD_PARAMS)
+    first = ctx.choose("first_access", ["as_dict", "as_dict(private=False)", "kid", "thumbprint-then-as_dict", "ensure_kid"])
+    jwk = scen.key(kind)
+    cls = {"oct": OctKey, "RSA": RSAKey, "EC": ECKey, "OKP": OKPKey}[jwk["kty"]]
+    vs = []
+
+    def build():
+        if how == "native-import":
+            return A.jkey(jwk, "bytes" if jwk["kty"] == "oct" else "pem", params=copy.deepcopy(params))
+        arg = {"oct32": 256, "rsa1024": 1024, "P-256": "P-256", "Ed25519": "Ed25519"}[kind]
+        return cls.generate_key(arg, copy.deepcopy(params))
+    k = call(build)
+    what = f"{kind} key by {how} with parameters {params} ({why})"
+    if not k.ok:
+        return Outcome("refused-at-construction", [], nontrivial=(kind, how, why, first))
+    key = k.value
+    accesses = {"as_dict": lambda: key.as_dict(), "as_dict(private=False)": lambda: key.as_dict(private=False) if jwk["kty"] != "oct" else key.as_dict(),
+                "kid": lambda: key.kid, "thumbprint-then-as_dict": lambda: (key.thumbprint(), key.as_dict())[1], "ensure_kid": lambda: (key.ensure_kid(), key.as_dict())[1]}
+    seq = [first, "as_dict", "as_dict(private=False)"]
+    outcomes = []
+    for n, acc in enumerate(seq):
+        r = call(accesses[acc])
+        outcomes.append("raised" if not r.ok else "returned")
+        if why.startswith("valid"):
+            if not r.ok:
+                vs.append(viol("a key with valid extra parameters cannot be exported", f"{what}: {acc}: {r.exc!r}"))
+            continue
+        if r.ok and isinstance(r.value, dict) and any(r.value.get(m) == v for m, v in params.items()):
+            vs.append(viol(f"an export shows parameters that validation refuses [{why}]", f"{what}: access #{n + 1} ({acc}) returned {sorted(r.value)} after outcomes {outcomes[:-1]}"))
+    if "raised" in outcomes and outcomes[-1] == "returned" and not vs:
+        vs.append(viol(f"invalid key parameters are refused at one access and accepted at a later one [{why}]", f"{what}: {list(zip(seq, outcomes))}"))
+    return Outcome(f"bad-params:{'/'.join(outcomes)}", vs, nontrivial=(kind, how, why, first))
+
+
 PARTS = [
     Part("roundtrips", h_roundtrip, bound={"quick": 1, "thorough": 2}, split_depth=1, budget={"quick": 150, "thorough": 2400}),
     Part("malformed-jwk", h_malformed, bound={"quick": 1, "thorough": 1}, split_depth=3),
+    Part("invalid-parameters-on-native-keys", h_bad_parameters, split_depth=2),
 ]
